@@ -881,17 +881,41 @@ class AbsMotorControl:
 
     def __init__(self, env):
         self.env = env
+        c = sym.ctx()
+        self.n_rules = z3.Int(c.fresh_name("n_rules"))          # any number of rules, zero included
+        c.assume(self.n_rules >= 0)
+
+    @property
+    def rules(self):
+        return AbsRuleList(self)
 
     def apply_rules(self):
         env, c = self.env, sym.ctx()
         st = env.state
         env.log.append(("apply_rules",))
         conflict = c.boolean(c.fresh_name("rules-conflict"), is_input=False)
-        if c.decide(conflict.term):
+        if c.decide(z3.And(conflict.term, self.n_rules >= 2)):
             raise ValueError("At the same time multiple PWM rules are applicable.")
         new = z3.Real(c.fresh_name("pwm"))
         c.assume(z3.And(new >= -1, new <= 1))
+        c.assume(z3.Implies(self.n_rules == 0, new == 1))      # no rule at all: the default duty cycle (C14, 0-rule job)
         st["pwm"] = new
+
+
+class AbsRuleList:
+    """motor_control.rules as the solver may look at it: its length / truth value (the rules themselves are the controller's)"""
+
+    def __init__(self, mc):
+        self.mc = mc
+
+    def sym_len(self):
+        return AM.symint(self.mc.n_rules)
+
+    def __bool__(self):
+        return sym.ctx().decide(self.mc.n_rules > 0)
+
+    def __iter__(self):
+        raise EngineError("the solver iterates over the controller's rules: not part of the interface model")
 
 
 def _mc_isinstance(obj, cls):
